@@ -442,64 +442,57 @@ var importsSHA256 = map[string]string{}
 // the remaining imports contains it.
 func (ex *Exec) sha256Linked() (bool, string) {
 	root := ex.prog.Root
-	if r, ok := importsSHA256[root]; ok {
+	key := root + "|" + curCfg.Name
+	if r, ok := importsSHA256[key]; ok {
 		return r == "", r
 	}
 	why := ""
 	direct := false
 	for _, p := range ex.prog.Pkgs {
 		for _, f := range p.Files {
-			constrained := false
-			for _, cg := range f.Comments {
-				if cg.Pos() > f.Package {
-					break
-				}
-				for _, c := range cg.List {
-					if strings.HasPrefix(c.Text, "//go:build") || strings.HasPrefix(c.Text, "// +build") {
-						constrained = true
-					}
-				}
+			fn := ex.prog.Fset.Position(f.Package).Filename
+			if strings.HasPrefix(fn, clientsDir) || !alwaysCompiled(fn) {
+				continue
 			}
 			for _, im := range f.Imports {
-				if strings.Trim(im.Path.Value, `"`) == "crypto/sha256" && !constrained {
+				if strings.Trim(im.Path.Value, `"`) == "crypto/sha256" {
 					direct = true
 				}
 			}
 		}
 	}
 	if !direct {
-		cmd := exec.Command("go", "list", "-deps", "-f", "{{.ImportPath}}", ".")
-		cmd.Dir = root
-		cmd.Env = append(cmd.Environ(), "GOFLAGS=-mod=mod", "GOPROXY=off", "GOSUMDB=off", "GOTOOLCHAIN=local")
-		out, err := cmd.Output()
-		found := false
-		if err == nil {
-			for _, l := range strings.Split(string(out), "\n") {
-				if strings.TrimSpace(l) == "crypto/sha256" {
-					found = true
-				}
-			}
+		// not imported by a file that is compiled in every configuration: ask the go command for the import
+		// closure under the configuration being analysed (and, for the default one, under -tags purego as well)
+		cfgs := []buildConfig{curCfg}
+		if curCfg.Name == defaultCfg.Name {
+			cfgs = append(cfgs, altConfigs[0])
 		}
-		if found {
-			// present in the default configuration only through constrained files or dependencies: check purego too
-			cmd2 := exec.Command("go", "list", "-deps", "-tags", "purego", "-f", "{{.ImportPath}}", ".")
-			cmd2.Dir = root
-			cmd2.Env = cmd.Env
-			out2, _ := cmd2.Output()
-			found2 := false
-			for _, l := range strings.Split(string(out2), "\n") {
-				if strings.TrimSpace(l) == "crypto/sha256" {
-					found2 = true
+		for _, cfg := range cfgs {
+			args := []string{"list", "-deps"}
+			if len(cfg.Tags) > 0 {
+				args = append(args, "-tags", strings.Join(cfg.Tags, ","))
+			}
+			args = append(args, "-f", "{{.ImportPath}}", ".")
+			cmd := exec.Command("go", args...)
+			cmd.Dir = root
+			cmd.Env = append(cmd.Environ(), "GOFLAGS=-mod=mod", "GOPROXY=off", "GOSUMDB=off", "GOTOOLCHAIN=local", "GOOS="+cfg.GOOS, "GOARCH="+cfg.GOARCH, "CGO_ENABLED=0")
+			out, err := cmd.Output()
+			found := false
+			if err == nil {
+				for _, l := range strings.Split(string(out), "\n") {
+					if strings.TrimSpace(l) == "crypto/sha256" {
+						found = true
+					}
 				}
 			}
-			if !found2 {
-				why = "crypto/sha256 is only linked under some build tags (missing with -tags purego)"
+			if !found {
+				why = "crypto/sha256 is not in the import closure of the package's non-test files under " + cfg.Name
+				break
 			}
-		} else {
-			why = "crypto/sha256 is not in the import closure of the package's non-test files"
 		}
 	}
-	importsSHA256[root] = why
+	importsSHA256[key] = why
 	return why == "", why
 }
 
@@ -514,8 +507,18 @@ func (ex *Exec) callHash(full string, args []Value, e *ast.CallExpr) (Value, boo
 		ex.oblige("call", "crypto.Hash.New#pre:registered@"+ex.where(e), BoolC(ok), "crypto.SHA256 must be registered in every importing program: "+why).Props = []string{"C17"}
 		ex.hashCount++
 		return OpaqueV{Kind: "hash", Data: &hashState{id: ex.hashCount}}, true
-	case "(crypto.Hash).Size":
+	case "crypto/sha256.New":
+		// the implementation is linked by name: no registry lookup, nothing to require
+		ex.hashCount++
+		return OpaqueV{Kind: "hash", Data: &hashState{id: ex.hashCount}}, true
+	case "crypto/sha256.Sum256":
+		d := HashOf(ex.strOf(args[0]))
+		at := types.NewArray(types.Typ[types.Uint8], 32)
+		return AggV{Typ: at, Cells: ex.cellsOfStr(d, 32)}, true
+	case "(crypto.Hash).Size", "(hash.Hash).Size":
 		return ex.constOf(bi(32), machType(types.Typ[types.Int])), true
+	case "(hash.Hash).BlockSize":
+		return ex.constOf(bi(64), machType(types.Typ[types.Int])), true
 	case "(hash.Hash).Reset":
 		args[0].(OpaqueV).Data.(*hashState).chunks = nil
 		return nil, true
